@@ -39,7 +39,7 @@ var allow = []string{
 var twoArgQuick = map[string]bool{"args": true, "tout": true, "alter": true, "config": true, "test": true, "map": true, "set": true, "cast": true, "format": true}
 
 // argument alphabet (DESIGN C19 plus `-5`: a negative index beyond -n)
-var argAlpha = []string{"", "-1", "-5", "0", "99999999999999999999", "--bad", "{", "[", "]", "a", "null", "[1,2]", `{"a":1}`}
+var argAlpha = []string{"", "-1", "-5", "0", "99999999999999999999", "--bad", "{", "[", "]", "a", "null", "[1,2]", `{"a":1}`, "c", "*3"}
 
 // scope parameters: the parameters of the function the program runs in (what `args` and $ARGS look at)
 var scopeQuick = [][]string{nil, {"--bad"}, {"-1"}}
@@ -54,6 +54,7 @@ var stdins = []stdinKind{
 	{"lines", "a\nb", types.Generic},
 	{"json-array", "[1,2,3]", types.Json},
 	{"json-object", `{"a":1}`, types.Json},
+	{"ragged-table", "a b c\n1 2 3\n4 5\n", types.Generic},
 }
 
 func init() {
@@ -70,7 +71,7 @@ func init() {
 
 	vlib.Register(&vlib.Check{
 		ID: "C19", Engine: "E2",
-		Rule: "program = one command from an explicit allow-list of 95 data/structural builtins (index, element, range, lists, mkarray, format, cast, tout, args, config, set/global, escape family, json tools, count, match/regexp, alter, struct-keys, switch/if/foreach/try family, test …) x every argument tuple of arity <= A over {empty string, -1, -5, 0, 99999999999999999999, --bad, {, [, ], a, null, [1,2], {\"a\":1}} passed verbatim through variables (quick A=1, plus A=2 for the builtins that need two arguments: args tout alter config test map set cast format; thorough A=2 for all) x mode {function without stdin; method fed by {empty, two lines, JSON array, JSON object}} x scope parameters {none, --bad, -1 (thorough also: a; --bad a)}; each run in-process (same fork seam as mx.Run) on its own goroutine with fd 2 read while it runs: 'blocked' is declared when crash.Handler's report is on fd 2 and the caller is still waiting 0.3 s later, or when nothing came back after 120 s; after 24 blocked cases in one builtin/arity/mode/scope class the rest of that class is skipped and counted; plus every sequence of <= 3 (thorough <= 4) commands over {pipe a, !pipe a, pipe b, !pipe b} run in a child murex process built from the working tree which then waits 3 s (the close grace period) and must still print `alive`. Oracle: the run returns control; no 'panic caught', no 'Murex has crashed', no Go panic trace; exit number != 0 whenever stderr carries a murex error report (`Error in`); child process exits normally. non-trivial = the command reported an error or produced output on stderr (an error path was executed) or the case is a pipe sequence with at least one close",
+		Rule: "program = one command from an explicit allow-list of 95 data/structural builtins (index, element, range, lists, mkarray, format, cast, tout, args, config, set/global, escape family, json tools, count, match/regexp, alter, struct-keys, switch/if/foreach/try family, test …) x every argument tuple of arity <= A over {empty string, -1, -5, 0, 99999999999999999999, --bad, {, [, ], a, null, [1,2], {\"a\":1}, c, *3} passed verbatim through variables (quick A=1, plus A=2 for the builtins that need two arguments: args tout alter config test map set cast format; thorough A=2 for all) x mode {function without stdin; method fed by {empty, two lines, JSON array, JSON object, a whitespace table with a short row}} x scope parameters {none, --bad, -1 (thorough also: a; --bad a)}; each run in-process (same fork seam as mx.Run) on its own goroutine with fd 2 read while it runs: 'blocked' is declared when crash.Handler's report is on fd 2 and the caller is still waiting 0.3 s later, or when nothing came back after 120 s; after 24 blocked cases in one builtin/arity/mode/scope class the rest of that class is skipped and counted; plus every sequence of <= 3 (thorough <= 4) commands over {pipe a, !pipe a, pipe b, !pipe b} run in a child murex process built from the working tree which then waits 3 s (the close grace period) and must still print `alive`. Oracle: the run returns control; no 'panic caught', no 'Murex has crashed', no Go panic trace; exit number != 0 whenever stderr carries a murex error report (`Error in`); child process exits normally. non-trivial = the command reported an error or produced output on stderr (an error path was executed) or the case is a pipe sequence with at least one close",
 		Run:    run,
 		Replay: replay,
 		Shards: func(string) int { return 16 },
